@@ -43,7 +43,8 @@ REQUIRED = ["cases", "ctl_cases", "sw_cases", "hostile_units", "closed_by_input"
             "hostile_and_valid_traffic_in_one_segment", "declared_length_below_8_judged",
             "hostile_completed_while_siblings_are_ready",
             "frames_shorter_than_their_type", "sibling_statistics_events_checked",
-            "handshake_deliveries_observed"]
+            "handshake_deliveries_observed",
+            "second_faulty_connection_in_the_same_round"]
 TIMEOUT = {"quick": 1200, "thorough": 9000}
 
 _st = {}
@@ -301,7 +302,19 @@ def ctl_case (rig, case, rep, fire):
   if case.get("phase", "up") != "up":
     return ctl_case_handshake(rig, case, rep, fire)
   w = rig.w
+  # a second faulty connection served in the same round of the I/O loop:
+  # accepted before X with bytes that make its read() give up quietly (a
+  # declared length below 8), or after X with bytes that make it raise (an
+  # unknown type) - both have to end up closed, whatever X's bytes do
+  W = None; sh = case.get("second_hostile")
+  if sh == "false_before": W = rig.new_peer()
   X = rig.new_peer(); Y = rig.new_peer(); Z = rig.new_peer()
+  if sh == "raise_after": W = rig.new_peer()
+  def send_second ():
+    if W is None: return
+    rep.count("second_faulty_connection_in_the_same_round")
+    if sh == "false_before": W["s"].send(struct.pack("!BBHL", 1, 2, 4, 0x77))
+    else: W["s"].send(struct.pack("!BBHL", 1, 99, 8, 0x78))
   delivered = []
   orig = X["con"].handlers
   def wrap (h):
@@ -342,6 +355,7 @@ def ctl_case (rig, case, rep, fire):
     fed = b"".join(pre) + hostile + b"".join(post)
     rep.count("hostile_and_valid_traffic_in_one_segment")
     sibling_round()
+    send_second()
     X["s"].send(fed)
     if not run_budget(len(fed) + 400): return
   else:
@@ -352,9 +366,11 @@ def ctl_case (rig, case, rep, fire):
     if place == 2:
       rep.count("hostile_and_valid_traffic_in_one_segment")
       sibling_round()
+      send_second()
       X["s"].send(hostile + b"".join(post)); fed += hostile + b"".join(post)
       if not run_budget(len(fed) + 400): return
     else:
+      send_second()
       X["s"].send(hostile); fed += hostile
       if not run_budget(len(hostile) + 200): return
       sibling_round()
@@ -367,6 +383,13 @@ def ctl_case (rig, case, rep, fire):
         closed=X["con"].disconnected or X["c"].closed or X["c"].shut_rd,
         pristine=[struct.unpack_from("!L", m, 4)[0] for m in pre + post],
         marker_type=10)
+  if W is not None and not (W["con"].disconnected or W["c"].closed or W["c"].shut_rd):
+    fire("bytes neither answered with an error nor the connection closed "
+         "(a second faulty connection served in the same round) (controller)",
+         "%s; the connection is still open" %
+         ("declared length 4, accepted before the other faulty connection"
+          if sh == "false_before" else "unknown type, accepted after the other one"))
+    return
   # siblings
   for P, name in ((Y, "Y"), (Z, "Z")):
     got = [x for (sk, x) in rig.pins if sk == id(P["c"])]
@@ -849,6 +872,8 @@ def run (spec, rep):
       ph = (i // spec["nsub"]) % 6
       if ph == 1: case["phase"] = "pre_features"
       elif ph == 3: case["phase"] = "pre_barrier"
+      elif ph == 0: case["second_hostile"] = "raise_after"
+      elif ph == 4: case["second_hostile"] = "false_before"
     do_case(case, rep)
     if first: rep.sample(case); first = False
 
